@@ -6,6 +6,30 @@ VERIF = Path(__file__).resolve().parent.parent
 props = [json.loads(l) for l in (VERIF / 'properties.jsonl').read_text().splitlines() if l.strip()]
 checks = []
 na = []
+# Per-property wording of what the claimed level covers (kept here so that it is one table to review).
+LEVELS = {
+ 'C01': ('Lean theorems about the post-lexer and the model builder (text preservation, every lexeme materialised once, sorted leaves, every sub-model prints its slice, File prints the input) under three per-input-validated assumptions about lark; obligations pin the split regex, token names, %ignore list; per input the real lexer/parser run is replayed on the model and diffed.', 'lark (lexer + LALR) is outside the model: assumptions A1-A3 are validated on every explored input, not proved'),
+ 'C02': ('Lean theorem on the blocked-store model: a text update keeps identities, order and invariants and replaces exactly one entry of the abstract (id, text) list, for every history of assignments; obligation: _raw_text has a single writer; store internals diffed on parsed multi-block documents.', 'setter glue of each token class is checked by correspondence, not proved'),
+ 'C03': ('43 Lean frame theorems over list-level store / slot / repeated-field models (everything outside the window unchanged, siblings keep their token lists, new gaps are copies of declared separators, Python list semantics incl. extended slices and drop_many, histories); obligations on pivots and separators; every slot / raw-wrapper op and the whole slice grid replayed on the model in lock-step.', 'views / mappings / value-level properties are observed at the raw-wrapper level'),
+ 'C04': ('Lean theorems: claim / shift / interleaving-claim / auto-claim preserve the visible tokens (ids, order, text), are permutations moving only placeholders; unclaim touches flags only; obligation: no read-only role reaches a store mutator (372 getters); every primitive claim call is locked-stepped with the model.', 'the effect table is name-based (conservative); dynamic dispatch is not resolved'),
+ 'C05': ('Lean theorems at tree level: the document invariant (tags, distinct leaves in store order) is preserved by replace / create / remove / insert / extend / remove-items / pop (popped node self-contained) and by every history; lifting lemmas; parse establishes it; witness that the pre-repair extend() violates it; obligations reattach_complete, first_last_canonical; invariant evaluated on the real objects after every operation of random histories.', 'that the generated Python updates the same fields the model updates is checked (oracle + obligations), not proved'),
+ 'C06': ('Lean theorems for the model-side premises only (separator discipline: created children are kept apart by the declared separators, new gaps of repeated fields are declared separators with visible text); obligations separators_non_empty, pivots_canonical, pivots_not_cached; re-parse by the real parser after every syntax-preserving edit.', 'PARTIAL: "the printed text parses to the same structure" needs the lexer/parser, which is outside the model; it is checked on every explored history'),
+ 'C07': ('Full refinement proof: for every load factor >= 2 the blocked store (blocks with stored indexes, handles, split/merge/rebalance, fast path) refines a plain list for every operation history; all queries equal their list counterparts; removed tokens detached; obligation on the constants; internal state diffed against the real store on random histories.', 'hand transcription of token_store.py validated by the internal-state diff'),
+ 'C08': ('Lean theorems: cache invariant preserved by every mutator incl. text updates that add/remove line breaks and the fast path; get_position = size of the text before the token; obligations single writer of _raw_text/size; positions recomputed from the concatenated text on store histories and on parsed multi-block documents.', 'as C07'),
+ 'C09': ('Lean refinement of the cost group and of payee/narration to records of optionals (every setter branch, iff with the documented rejection, all histories, all start forms), generic optional-slot round trip; history-mode diff on real objects; every value property of every class read back / siblings / re-parse.', 're-parse clause relies on the real parser; four recorded findings about comment ownership / trailing blanks on re-parse'),
+ 'C10': ('Lean theorems: handle_splice correct, every raw-wrapper method notifies with a normalised range describing exactly its change, view invariant for every history through any view, views equal filter(raw), Python list semantics for all indices/slices/steps, mapping views equal a first-match ordered multi-dict reference; _raw_indexes diffed line by line.', 'CPython list semantics are a Lean reference definition compared with real lists on every explored op'),
+ 'C11': ('Lean theorems: deepcopy total under the invariant, copied store = renamed span, shape/leaves preserved, invariant + whole-store span, equal to the original, same text and flags, disjoint ids; obligation clone_complete; lock-step of the model copy vs the real copy; independence by edits on either side.', 'aliasing of Python objects other than tokens/models is visible only through the follow-up edits'),
+ 'C12': ('62 Lean theorems by induction on strings: parse(format v) = v, format v lexes back as exactly one token with the stated condition on the next character, every lexeme parses, setter machine consistent for any assignment sequence, per class on explicit decidable domains; obligations pin the escape map and 28 terminal definitions; every value/text diffed against the real codecs, re and parse_token, incl. in-document read back.', 'terminal regexes are hand models validated against re, not derived'),
+ 'C13': ('Lean theorems over an abstract arithmetic carrier: evaluation is the left fold, every operator (plain/reflected/in-place/unary) has the arithmetic value, printed tokens re-parse to the same tree (reference parser proved complete and sound), parentheses exactly when needed; lark tree vs reference parser and printed text after every application diffed; independent evaluator.', 'decimal arithmetic abstract; operand ownership (nothing consumed, nothing raised) is the oracle\'s'),
+ 'C14': ('Lean theorems: ownership invariant (at most one slot per comment, claimed <=> held) preserved by every claim/unclaim/auto call and call list; claims never take a claimed comment; unclaim-claim restores; census, parse-vs-later, idempotence, adjacency and the documented rule evaluated on all parseable layouts of <= 5 lines and on random sequences.', 'PARTIAL: the tree walk deciding which calls auto_claim issues and the documented rule are evaluated on the real code (exhaustively on small layouts), not proved; two recorded rule findings'),
+ 'C15': ('Lean theorems about the constructor model (own tokens in order, only declared separators in between, gaps of repeated fields, absent parts emit nothing); obligation from_children_canonical over the extracted recipes; emitted token list of every constructed model diffed against assemble run on the extracted recipe; invariant + re-parse on every subset of optional arguments.', 'PARTIAL: parse-back equality relies on the real parser'),
+ 'C16': ('Lean theorems over an abstract file map: BFS visits every reachable file once for any include graph and spelling identity, exit writes exactly the changed files / unlinks removed / creates added, a raising body touches nothing, identity decoding round-trips (and the witness that text-mode translation does not); obligations newline=\'\' and makedirs guard; bytes/mtimes/existence compared on real temporary trees and with the model.', 'PARTIAL by nature: OS, glob, decoding and path resolution are runtime behaviour the model mirrors'),
+ 'C17': ('Lean theorems: getter = maximal blank run modulo zero-width tokens (exact layout characterisation), both sides agree iff the stated layout condition, setter frame (non-blank tokens keep identity/text/order, length changes by the difference), read-back for non-empty values, regex tokenisation; obligation on the regex; lock-step get/set on every model of real documents.', 'sides agreement has a layout hypothesis; its failures on real documents are counted, not failed'),
+ 'C18': ('Lean theorems: indent rule (siblings\' indent else parent indent + indent_by), every line of a formatted comment carries the indent, inserting keeps every existing item\'s tokens incl. its INDENT token (through the C03 frame); rule evaluated over routes x layouts x indent_by on real objects.', 'the rule itself is a two-line function; assurance is in its composition with C03 and the correspondence'),
+ 'C19': ('Lean theorems in a state monad without rollback (statement order of the Python): a raise of slice assignment / view slice assignment / raw_text setter / unclaim / claim-by-name / payee setter / cost number setters leaves the state it started from, re-use is refused, with witnesses that the pre-repair orders violate it; malformed stream mixed into edit histories + 26 deterministic refusal probes on the real code.', 'the refusal sites are transcribed individually; completeness of the site list is the harness\'s (every raise observed in the malformed stream is judged)'),
+ 'C20': ('Lean theorems: treeEq reflexive/symmetric/transitive, implies same class/text/shape, iff under alignment (the unconditional iff is false: both counterexamples proved), every single perturbation makes it unequal, token equality consistent with hash; obligation eq_complete; parse-twice / copy / every single perturbation / trailing-trivia pairs / hash-after-edit on real objects.', 'the characterisation is a sandwich (positional structure => == => abstract structure)'),
+}
+
 for p in props:
     pid = p['id']
     f = VERIF / 'harness' / 'props' / f'{pid.lower()}.py'
@@ -31,10 +55,10 @@ for p in props:
         'engine': 'lean4-proof+correspondence',
         'level_claimed': {
             'category': 'proof',
-            'text': ns.get('LEVEL_TEXT', 'Lean 4 theorems about an executable model of the mechanism, tied to /repo by the translator obligations and by a per-run correspondence diff against the real code; an executable oracle on the real code supplies concrete failing inputs.'),
+            'text': LEVELS.get(pid, (ns.get('LEVEL_TEXT', ''), ''))[0] or ns.get('LEVEL_TEXT', 'Lean 4 theorems about an executable model, tied to /repo by translator obligations and a per-run correspondence diff; an oracle on the real code supplies failing inputs.'),
             'design_ref': f'DESIGN.md section 5, {pid}',
         },
-        'level_note': ns.get('LEVEL_NOTE', 'Trusted: Lean kernel (axioms propext, Classical.choice, Quot.sound only), the translator, the correspondence harness; Python control flow is hand-transcribed (modelled, not verified); lark/re/decimal/OS outside the model.'),
+        'level_note': (LEVELS.get(pid, ('', ''))[1] + '. ' if LEVELS.get(pid) else '') + ns.get('LEVEL_NOTE', 'Trusted: Lean kernel (axioms propext, Classical.choice, Quot.sound only), the translator, the correspondence harness; Python control flow is hand-transcribed (modelled, not verified); lark/re/decimal/OS outside the model.'),
         'technique': ns.get('TECHNIQUE', 'Lean 4 machine-checked proof over a hand-written model + run-time correspondence check against the implementation'),
     })
 m = {
@@ -42,7 +66,7 @@ m = {
     'setup_cmd': './setup.sh',
     'hooks': {
         'guard': 'AUTOBEAN_REFACTOR_VERIF',
-        'enable': 'no source hooks are needed: the checks import /repo in-process and patch module globals (token_store load-factor constants) from the harness',
+        'enable': 'no source hooks are needed: the checks import /repo in-process; at run time the harness patches module globals (token_store load-factor constants, re-evaluated from the source) and wraps the comment-claim primitives with tracers (C04/C14)',
         'baseline_off_cmd': 'cd /repo && /venv/bin/python -m pytest -ra -q -p no:cacheprovider --timeout=900',
         'source_commits': [],
         'add_only': True,
